@@ -160,3 +160,26 @@ def feed(report, results, property_id):
             report.undecide('%s[%s]' % (site, r['cfg']), r['undecided'] + (' ; bounded native stand-in passed (%d cells)' % r['native_cells'] if r['native_cells']
                             else ' ; no per-function native oracle: only the bounded engine of this property speaks for this function'))
     return 3 if crashed else 0
+
+
+def _dp_one(args):
+    """direction-parametricity of one function under contract: its symbolic execution with ONE generic direction index completes, i.e.
+    every subscript of the batch axes is `:`, `...` or the direction loop variable, and no whole-array construct mixes directions"""
+    key, cfg = args
+    from vc.contract import generate, Undecided
+    reg = _registry(); con = reg[key]
+    D = (con.bounded_D[-1] if getattr(con, 'bounded_D', None) else None)
+    try:
+        generate(con, cfg, reg, REPO, D)
+        return {'function': con.qual, 'cfg': cfg, 'verdict': 'holds', 'detail': 'symbolic execution with a generic direction index completed (all batch subscripts are `:`, `...` or the direction loop variable)'}
+    except Undecided as e:
+        return {'function': con.qual, 'cfg': cfg, 'verdict': 'undecided', 'detail': str(e)[:200]}
+    except Exception as e:
+        return {'function': con.qual, 'cfg': cfg, 'verdict': 'undecided', 'detail': 'construct outside the executor\'s subset (%s)' % type(e).__name__}
+
+
+def dp_scan(tasks, nproc=None):
+    nproc = nproc or min(16, os.cpu_count() or 4, max(1, len(tasks)))
+    ctx = mp.get_context('fork')
+    with ctx.Pool(nproc, maxtasksperchild=8) as pool:
+        return pool.map(_dp_one, list(tasks), chunksize=4)
